@@ -42,6 +42,7 @@ Record pack_case := {
 
 Inductive case :=
 | CG (g : gemm_case)
+| CGL (l : list gemm_case)               (* members of one batched_gemm_uninit call *)
 | CP (p : pack_case)
 | CB (expect_err got_err : bool).        (* batched call with inconsistent members *)
 
@@ -151,26 +152,31 @@ Definition pack_model (p : pack_case) : list Z :=
   end.
 
 (* ---- agree / prop_ok / show ---- *)
+Definition agree_g (g : gemm_case) : bool :=
+  params_okb (g_P g) && (0 <? g_bb g) && (0 <? g_kb g) &&
+  (if g_small g
+   then match g_obs g with
+        | OFull l => eq_cells (all_cells (g_m g) (g_n g) (model_out g)) l
+        | _ => false
+        end
+   else obs_matches_spec g (g_obs g)).   (* model = spec by C16_blocked_gemm_correct *)
 Definition agree (c : case) : bool :=
   match c with
-  | CG g =>
-      params_okb (g_P g) && (0 <? g_bb g) && (0 <? g_kb g) &&
-      (if g_small g
-       then match g_obs g with
-            | OFull l => eq_cells (all_cells (g_m g) (g_n g) (model_out g)) l
-            | _ => false
-            end
-       else obs_matches_spec g (g_obs g))   (* model = spec by C16_blocked_gemm_correct *)
+  | CG g => agree_g g
+  | CGL l => forallb agree_g l
   | CP p => match k_out p with Some l => eq_listZ (pack_model p) l | None => false end
   | CB e g => Bool.eqb e g
   end.
 
 (* the property oracle: the implementation's output equals alpha*A*B + beta*C + bias computed in Z
    (so it contains none of the NaN poison and does not depend on the prior contents) *)
+Definition prop_ok_g (g : gemm_case) : bool :=
+  obs_matches_spec g (g_obs g) &&
+  match g_obs2 g with OSums _ _ _ => obs_matches_spec g (g_obs2 g) | _ => true end.
 Definition prop_ok (c : case) : bool :=
   match c with
-  | CG g => obs_matches_spec g (g_obs g) &&
-            match g_obs2 g with OSums _ _ _ => obs_matches_spec g (g_obs2 g) | _ => true end
+  | CG g => prop_ok_g g
+  | CGL l => forallb prop_ok_g l
   (* the packed layout is an internal choice the property does not constrain: a packing call must
      only not panic; layout drift from the model is reported as information (see [agree]) *)
   | CP p => match k_out p with Some _ => true | None => false end
@@ -181,6 +187,7 @@ Definition show (c : case) :=
   match c with
   | CG g => (if g_small g then all_cells (g_m g) (g_n g) (spec_out g) else [],
              if g_small g then [] else spec_row_sums g, [] : list Z)
+  | CGL l => ([], flat_map spec_row_sums l, [])
   | CP p => ([], pack_model p, [])
   | CB e g => ([], [], [])
   end.
